@@ -576,6 +576,19 @@ pub fn oracle_c18(ops: &[String], ans: &[String]) -> Fails {
                     }
                 }
             }
+            "res.extendp" => {
+                // the iterator fails after j items (caught): exactly those j items were added
+                let j = pu(t[2]) as usize;
+                let want = if j < t.len() - 3 { "caught" } else { "ok" };
+                if a != want {
+                    fails.push((i, format!("extend from an iterator failing after {} of {} items answered {}", j, t.len() - 3, a)));
+                }
+                if let Some(r) = refs.get_mut(&id) {
+                    for x in t[3..].iter().take(j) {
+                        r.added.push(pu(x));
+                    }
+                }
+            }
             "res.clear" => {
                 if let Some(r) = refs.get_mut(&id) {
                     r.added.clear();
